@@ -89,7 +89,7 @@ type recApp struct {
 }
 
 func (a *recApp) GetActorSystem() *actor.ActorSystem { return a.sys }
-func (a *recApp) GetService(name string) *actor.PID { return a.pids[name] }
+func (a *recApp) GetService(name string) *actor.PID  { return a.pids[name] }
 func (a *recApp) FilterSelfServices(filter func(name string, cfg *config.ServiceInfo)) {
 	for _, n := range a.names {
 		filter(n, &config.ServiceInfo{Type: "verif"})
